@@ -376,9 +376,16 @@ LONG_QUICK = [255, 257, 511, 513, 1023, 1025]
 LONG_THOROUGH = [1023, 1025, 4095, 4096, 4097, 8191, 8192, 8193]
 
 
-def gen_long_array(r, ctx, nf=None, names=None, avoid=()):
-    """1-d array around a power of two (block / buffer sizes of numpy's copy loops): few narrow fields"""
-    n = r.choice(LONG_QUICK if ctx.quick() else LONG_THOROUGH)
+_LONG_K = [0]
+
+
+def gen_long_array(r, ctx, nf=None, names=None, avoid=(), n=None):
+    """1-d array around a power of two (block / buffer sizes of numpy's copy loops): few narrow fields.  The sizes
+    are taken round-robin (rotated by the seed), so every run uses every size of the list for some entry point."""
+    if n is None:
+        lst = LONG_QUICK if ctx.quick() else LONG_THOROUGH
+        n = lst[(_LONG_K[0] + ctx.seed) % len(lst)]
+        _LONG_K[0] += 1
     nf = nf or r.choice([2, 3])
     pool = [x for x in NAMES if x not in avoid]
     names = names or r.sample(pool, nf)
@@ -610,7 +617,7 @@ class Add(Entry):
             arr = gen_long_array(r, ctx)
             have = [f["name"] for f in arr["fields"]]
             add = [{"name": f["name"], "type": f["type"], "sub": f["sub"]}
-                   for f in gen_long_array(r, ctx, nf=r.choice([1, 2]), avoid=have)["fields"]]
+                   for f in gen_long_array(r, ctx, nf=r.choice([1, 2]), avoid=have, n=0)["fields"]]
             c = {"arr": arr, "add": add, "spelling": "descr", "defaults": None, "family": "long/%d" % arr["shape"][0]}
             if r.random() < 0.5:
                 c["defaults"] = {"form": "list", "vals": [gen_dval(r, d["type"], arr["shape"], d["sub"], forms=("scalar", "row"))
@@ -718,11 +725,7 @@ class Combine(Entry):
                        "family": "%s/n=%d/%dd" % (kind, len(arrs), len(shape))})
         for _ in range(n_long(ctx)):
             a1 = gen_long_array(r, ctx)
-            a2 = gen_long_array(r, ctx, avoid=[f["name"] for f in a1["fields"]])
-            if a2["shape"] != a1["shape"] and r.random() < 0.7:        # mostly the same length
-                a2 = None
-                while a2 is None or a2["shape"] != a1["shape"]:
-                    a2 = gen_long_array(r, ctx, avoid=[f["name"] for f in a1["fields"]])
+            a2 = gen_long_array(r, ctx, avoid=[f["name"] for f in a1["fields"]], n=a1["shape"][0])
             cs.append({"arrs": [a1, a2], "container": "list", "family": "long/%d" % a1["shape"][0]})
         return cs
 
@@ -1047,8 +1050,12 @@ class Compare(Entry):
         for _ in range(ctx.n(240, 3000)):
             a1 = gen_array(r, ctx, mode=r.choice(["values", "finite", "finite"]))
             kind = r.choice(["copy", "copy", "byteswapped", "one-item", "one-item", "fields-differ", "reordered",
-                             "shape-differs", "sub-differs", "neg-zero", "nan", "wider-string", "size-differs"])
-            a2 = {"shape": list(a1["shape"]), "layout": r.choice(["C", "strided"]),
+                             "shape-differs", "sub-differs", "neg-zero", "nan", "wider-string", "size-differs",
+                             "only-in-1", "only-in-2"])
+            if kind in ("only-in-1", "only-in-2"):
+                # equal data on the common fields; ONLY the name sets differ (one direction at a time)
+                a1 = gen_array(r, ctx, mode="finite", nf=r.choice([2, 3, 4]))
+            a2 = {"shape": list(a1["shape"]), "layout": r.choice(["C", "strided", "reversed", "readonly"]),
                   "fields": [dict(f, cells=list(f["cells"])) for f in a1["fields"]]}
             n = nelem(a1["shape"])
             if kind == "byteswapped":
@@ -1062,6 +1069,11 @@ class Compare(Entry):
                     a2["fields"].pop(r.randrange(len(a2["fields"])))
                 if r.random() < 0.6:
                     a2["fields"] += gen_fields(r, a2["shape"], 1, avoid=[f["name"] for f in a1["fields"]], mode="finite")
+            elif kind == "only-in-1":
+                a2["fields"].pop(r.randrange(len(a2["fields"])))
+            elif kind == "only-in-2":
+                a2["fields"].insert(r.randrange(len(a2["fields"]) + 1),
+                                    gen_fields(r, a2["shape"], 1, avoid=[f["name"] for f in a1["fields"]], mode="finite")[0])
             elif kind == "reordered":
                 r.shuffle(a2["fields"])
             elif kind == "shape-differs":
@@ -1109,6 +1121,8 @@ class Compare(Entry):
                     f["cells"] = cells
                     f["type"] = "%s%s%d" % (o, k, m + extra)
             im = r.random() < 0.5
+            if kind in ("only-in-1", "only-in-2"):
+                im = r.random() < 0.25
             cs.append({"a1": a1, "a2": a2, "ignore_missing": im, "verbose": r.random() < 0.2,
                        "omit_kw": im and r.random() < 0.3,      # ignore_missing=True is the documented default
                        "family": "%s/%dd" % (kind, len(a1["shape"]))})
@@ -1180,8 +1194,10 @@ TRUSTED = [
     "(non-packed) dtypes, non-ASCII field names, copying between fields of the same name but different type (numpy cast)",
     "translator harness/props/c07_translate.py (python ast -> C07/Gen.v, fail-closed): trusted to print what the source "
     "says about the isinstance class tuples, guard operators, filter polarity, allocator, output dimensions, keyword "
-    "defaults and exception classes; Skel.v/Tie.v (proved) connect these values to Model.v; everything else of the "
-    "function bodies is hand-modelled",
+    "defaults and exception classes; Skel.v/Tie.v (proved) connect these values to Model.v; it also refuses (fail-closed) "
+    "any tree whose loops in the eight functions, or whose bodies of copy_fields / copy_fields_by_name / compare_arrays "
+    "(messages, docstrings and stdout reporting blanked) are not literally the ones Model.v transcribes; the transcription "
+    "itself is by hand",
     "observed by the harness, not in Coq: 'yields a NEW array' (np.shares_memory monitor; combine_fields of a one-element "
     "list returns that array itself and is not demanded to be a copy) and 'zero-filled' (buffers of the output's size filled "
     "with 0xAB are released before every allocating call, so an uninitialised output shows)",
@@ -1205,7 +1221,7 @@ def run(ctx, replay=None):
     try:
         params, changed = c07_translate.regenerate(ctx.impl, core.COQDIR)
         ctx.obligation("C07/Gen.v regenerated from esutil/numpy_util.py (isinstance dispatches, guards, filter "
-                       "polarity, allocator, output dimensions, defaults, exception classes)%s"
+                       "polarity, allocator, output dimensions, defaults, exception classes; loop / body fingerprints match the model)%s"
                        % (" [changed]" if changed else ""), True)
     except c07_translate.TranslateError as e:
         c07_translate.write_reference(core.COQDIR)     # never keep the parameters of a tree checked earlier
